@@ -2,7 +2,7 @@
 # rebuild the harness for the given configurations (default: d)
 cd "$(dirname "$0")/../harness"
 for c in "${@:-d}"; do
-  f=""; case $c in d) f="";; frap) f="fr,ap";; rvpofr) f="rv,po,fr";; poap) f="po,ap";; *) f="$c";; esac
+  f=""; case $c in d) f="";; frap) f="fr,ap";; rvpofr) f="rv,po,fr";; poap) f="po,ap";; rvap) f="rv,ap";; *) f="$c";; esac
   CARGO_TARGET_DIR=$PWD/target-$c RUSTFLAGS=-Awarnings cargo build --release --offline --quiet ${f:+--features $f} 2>&1 | grep -E "^error" -A8 | head -30 &
 done
 wait
